@@ -41,8 +41,14 @@ func VerifC19Evacuate() {
 	put(hr, regular)
 	put(hl, locked)
 	put(hd, removed)
+	// lock and tombstone are broadcast by the engine; a shard that was read-only
+	// at that moment does not have them (at least one shard does)
+	lockSomewhere := false
 	for i := 0; i < n; i++ {
-		put(i, lock)
+		if i == n-1 && !lockSomewhere || vrt.Bool("lockReachedThisShard") {
+			put(i, lock)
+			lockSomewhere = true
+		}
 		put(i, ts)
 	}
 
@@ -113,8 +119,10 @@ func VerifC19Evacuate() {
 		}
 		db := w.shards[i].VerifMeta()
 		if ok, _ := db.Exists(locked.Address(), true); ok {
-			l, err := db.IsLocked(locked.Address())
-			vrt.Assert(err == nil && l, "a locked object stays locked on every shard that holds it")
+			if hasLock, _ := db.Exists(lock.Address(), true); hasLock {
+				l, err := db.IsLocked(locked.Address())
+				vrt.Assert(err == nil && l, "a locked object stays locked on every shard that holds it together with its lock")
+			}
 		}
 		_, err := w.shards[i].Get(removed.Address(), false)
 		vrt.Assert(err != nil, "a removed object does not become readable on any shard")
